@@ -6,6 +6,7 @@ import (
 	"os"
 	"path/filepath"
 	"runtime"
+	"runtime/debug"
 	"sort"
 	"strings"
 
@@ -930,6 +931,9 @@ func runC14(cfg *RunCfg, rep *Reporter, cov *Cov) {
 			runtime.ReadMemStats(&ms)
 			cov.Add("evaluations", 1)
 			cov.Add("outcome.alloc-measured", 1)
+			if ms.TotalAlloc-before > 256<<20 {
+				debug.FreeOSMemory()
+			}
 			if delta := ms.TotalAlloc - before; delta > c14AllocBound+64*fileSize {
 				allocViol++
 				rep.Report(Violation{Property: "C14", Sig: "dmgmon|alloc:" + c.kind, What: fmt.Sprintf("%s allocated %d bytes on a %d-byte file with a damaged length field (bound 64 MiB + 64 x file + 1 MiB)", c, delta, fileSize),
@@ -947,7 +951,7 @@ func runC14(cfg *RunCfg, rep *Reporter, cov *Cov) {
 		dir := filepath.Join(cfg.Scratch, fmt.Sprintf("c14-%d", k))
 		defer os.RemoveAll(dir)
 		cov.Add("damage."+d.kind, 1)
-		if d.kind == "overwrite-lengths-crafted" && allocViol > 0 {
+		if (d.kind == "overwrite-lengths-crafted" || d.lengthFlip) && allocViol > 0 {
 			return // the sequential pass already showed the allocation; 16 workers allocating GiBs would only kill the run
 		}
 		c14One(cfg, rep, cov, s, j.s, d, dir)
